@@ -31,6 +31,24 @@ def stmts_of(n):
     return [n]
 
 
+def conjuncts(e):
+    e = see_through(e)
+    if isinstance(e, dict) and e.get('k') == 'bin' and e.get('op') == '&&':
+        return conjuncts(e['l']) + conjuncts(e['r'])
+    return [e]
+
+
+def src_of(e):
+    e = see_through(e)
+    if not isinstance(e, dict):
+        return '?'
+    if e.get('k') == 'un':
+        return e.get('op', '') + src_of(e.get('e'))
+    if e.get('k') == 'call':
+        return callee(e).split('::')[-1] + '(...)'
+    return e.get('s') or e.get('n') or e.get('k')
+
+
 def run(src, tier, seed):
     fx = Facts(src)
     res = Result('C28')
@@ -123,7 +141,20 @@ def run(src, tier, seed):
                 idx_has = i
         if idx_sort is not None and idx_has is not None:
             ok = idx_sort < idx_has
-    if ok:
+    # the canonical sort may be guarded by commutativity only: any further conjunct (e.g. "not already sorted" under another order than the
+    # virtual termSort's) lets two spellings of one term keep different argument orders
+    def has_sort(n):
+        return any(is_call(x, 'termSort') for x in walk(n))
+    for s_ in (b for b in walk(mk['body']) if b.get('k') == 'if' and has_sort(b['then'])
+               and not any(c is not b and c.get('k') == 'if' and has_sort(c) for c in walk(b['then']))):
+        extra = [a for a in conjuncts(s_['cond']) if not (isinstance(see_through(a), dict) and is_call(see_through(a), 'commutes'))]
+        if extra:
+            ok = None
+            res.bad(r, 'sort-skipped-conditionally:mkFun', fx.loc(mk, s_.get('ln')), 'Logic::mkFun sorts the arguments of a commutative symbol only under an additional condition (%s): when it '
+                    'does not hold the arguments keep the order they were given in, and two spellings of one term get different identities' % '; '.join(src_of(a) for a in extra))
+    if ok is None:
+        pass
+    elif ok:
         res.ok(r, 'mkFun: if (commutes()) termSort(k.args) precedes hasCplxKey(k)')
     else:
         res.bad(r, 'mkFun-no-sort', fx.loc(mk), 'Logic::mkFun no longer sorts the arguments of commutative symbols before looking the key up: (f a b) and (f b a) get different identities')
